@@ -101,7 +101,7 @@ func (h *history) step(op *storex.Op) string {
 	}
 	res := h.w.Exec(op)
 	after := h.w.Observe(storex.Keys)
-	wi.shape = func(q *query, b, a obs) string { return shapeOf(q, op, before, after, b, a) }
+	wi.shape = func(q *query, b, a obs) string { return shapeOf(q, treeDeletes(op), &before.T, &after.T, b, a) }
 	h.run.Line(line, res)
 	h.lines = append(h.lines, line)
 	h.run.Tag("op:" + wi.kind)
@@ -173,6 +173,109 @@ func modelHistories(run *hx.Run, qs []*query, profiles []*storex.Profile, n, max
 	}
 }
 
+// ---------------------------------------------------------------- small-scope exhaustive words
+
+type letter struct {
+	name string
+	mk   func() *storex.Op
+}
+
+func regOp(node, id, addr string, svc *storex.SvcArg, chks ...storex.ChkArg) *storex.Op {
+	return &storex.Op{Kind: "reg", Reg: &storex.RegArg{Node: storex.NodeArg{Name: node, ID: id, Addr: addr}, Svc: svc, Checks: chks}}
+}
+
+func kvOp(verb, key string) *storex.Op {
+	return &storex.Op{Kind: "kv", KV: &storex.KVArg{Verb: verb, Key: key, Val: []byte("v")}}
+}
+
+func catalogAlphabet() ([]*storex.Op, []letter) {
+	id1, id2 := storex.NodeIDs[1], storex.NodeIDs[2]
+	svc := func(node, id, name string, port int) *storex.SvcArg {
+		return &storex.SvcArg{Node: node, ID: id, Name: name, Port: port}
+	}
+	pre := []*storex.Op{
+		regOp("n1", id1, "10.0.0.1", svc("n1", "web", "web", 80), storex.ChkArg{Node: "n1", ID: "c1", Status: "passing"},
+			storex.ChkArg{Node: "n1", ID: "c2", Status: "passing", SvcID: "web"}),
+	}
+	ls := []letter{
+		{"reg n1 web port 81", func() *storex.Op { return regOp("n1", id1, "10.0.0.1", svc("n1", "web", "web", 81)) }},
+		{"reg n1 web renamed db", func() *storex.Op { return regOp("n1", id1, "10.0.0.1", svc("n1", "web", "db", 80)) }},
+		{"reg n1 db", func() *storex.Op { return regOp("n1", id1, "10.0.0.1", svc("n1", "db", "db", 80)) }},
+		{"reg n1 c2 on db", func() *storex.Op {
+			return regOp("n1", id1, "10.0.0.1", nil, storex.ChkArg{Node: "n1", ID: "c2", Status: "passing", SvcID: "db"})
+		}},
+		{"reg n1 c1 on web", func() *storex.Op {
+			return regOp("n1", id1, "10.0.0.1", nil, storex.ChkArg{Node: "n1", ID: "c1", Status: "passing", SvcID: "web"})
+		}},
+		{"reg n1 c2 critical", func() *storex.Op {
+			return regOp("n1", id1, "10.0.0.1", nil, storex.ChkArg{Node: "n1", ID: "c2", Status: "critical", SvcID: "web"})
+		}},
+		{"dereg n1 check c2", func() *storex.Op { return &storex.Op{Kind: "dereg", Dereg: [3]string{"n1", "", "c2"}} }},
+		{"dereg n1 svc web", func() *storex.Op { return &storex.Op{Kind: "dereg", Dereg: [3]string{"n1", "web", ""}} }},
+		{"dereg n1", func() *storex.Op { return &storex.Op{Kind: "dereg", Dereg: [3]string{"n1", "", ""}} }},
+		{"reg n1 addr 2", func() *storex.Op { return regOp("n1", id1, "10.0.0.2", nil) }},
+		{"reg m web", func() *storex.Op { return regOp("m", id2, "10.0.0.1", svc("m", "web", "web", 80)) }},
+		{"dereg m", func() *storex.Op { return &storex.Op{Kind: "dereg", Dereg: [3]string{"m", "", ""}} }},
+		{"txn[svc set n1 web2/web, check set c2 on web2]", func() *storex.Op {
+			return &storex.Op{Kind: "txn", Txn: []storex.TxnOpArg{
+				{Fam: 's', Verb: "set", Svc: svc("n1", "web2", "web", 80)},
+				{Fam: 'c', Verb: "set", Chk: &storex.ChkArg{Node: "n1", ID: "c2", Status: "passing", SvcID: "web2"}}}}
+		}},
+	}
+	return pre, ls
+}
+
+func kvAlphabet() ([]*storex.Op, []letter) {
+	pre := []*storex.Op{kvOp("set", "a/b"), kvOp("set", "a/bc"), kvOp("set", "ab"), kvOp("set", "\x00a"), kvOp("set", "\x00ab")}
+	mk := func(verb, key string) letter {
+		return letter{"kv " + verb + " " + key, func() *storex.Op { return kvOp(verb, key) }}
+	}
+	ls := []letter{mk("set", "a/b"), mk("set", "a/x"), mk("delete", "a/b"), mk("delete", "a/bc"), mk("delete", "\x00ab"),
+		mk("delete-tree", "a"), mk("delete-tree", "a/"), mk("delete-tree", "a/b"), mk("delete-tree", ""), mk("delete-tree", "\x00"),
+		{"reap all", func() *storex.Op { return &storex.Op{Kind: "reap", Reap: 1 << 40} }},
+	}
+	return pre, ls
+}
+
+// exhaustive runs every word of exactly `depth` letters, each on a fresh FSM after the preamble.
+func exhaustive(run *hx.Run, name string, qs []*query, pre []*storex.Op, ls []letter, depth int) {
+	word := make([]int, depth)
+	count := 0
+	for {
+		h := newHistory(run, run.RNG.Fork(uint64(1000000+count)), qs, 3, false)
+		idx := uint64(10)
+		for _, op := range pre {
+			o := *op
+			o.Idx = idx
+			idx += 2
+			h.step(&o)
+		}
+		for k, l := range word {
+			op := ls[l].mk()
+			op.Idx = idx
+			op.ViaFSM = (count+k)%2 == 0
+			idx += 2
+			h.step(op)
+		}
+		h.finish()
+		count++
+		i := depth - 1
+		for i >= 0 {
+			word[i]++
+			if word[i] < len(ls) {
+				break
+			}
+			word[i] = 0
+			i--
+		}
+		if i < 0 {
+			break
+		}
+	}
+	run.Extra["exhaustive_"+name] = map[string]any{"alphabet": len(ls), "depth": depth, "histories": count, "exhaustive": true}
+	run.Tag(fmt.Sprintf("exhaustive:%s:depth-%d", name, depth))
+}
+
 func main() {
 	run := hx.Start()
 	run.Rule = "for every query of the set and every single write: (raw index, reported index, canonical result) of the real state store equals the Lean model's, and whenever the model's watch footprint changed the real WatchSet fired; monitor on the implementation alone: result changed => reported index strictly larger and WatchSet fired; reported index >= 1; index never decreases except across tombstone reaping; blocked queries (real Server.blockingQuery) are released by a change"
@@ -180,6 +283,7 @@ func main() {
 	// two different service names (rename in place)
 	storex.NodeNames = append(storex.NodeNames, "m")
 	storex.Services = append(storex.Services, [2]string{"web", "db"})
+	storex.Keys = append(storex.Keys, "\x00a", "\x00ab")
 	u := &universe{
 		Keys:     append([]string{""}, storex.Keys...),
 		Prefixes: append(append(append([]string(nil), storex.Prefixes...), storex.NulPrefixes...), "\x00a", "a/b/"),
@@ -194,5 +298,10 @@ func main() {
 	qs := modelledQueries(u)
 	run.Extra["modelled_queries"] = len(qs)
 	modelHistories(run, qs, []*storex.Profile{kvHeavy, catalogHeavy, sessionHeavy, txnHeavy}, run.Scale(160, 1400), 25, run.Scale(12, 6))
+	wideHistories(run, run.Scale(120, 1000), 30)
+	pre, ls := catalogAlphabet()
+	exhaustive(run, "catalog", qs, pre, ls, run.Scale(2, 3))
+	pre, ls = kvAlphabet()
+	exhaustive(run, "kv", qs, pre, ls, run.Scale(2, 3))
 	run.Finish()
 }
